@@ -68,8 +68,31 @@ def ivsToJson (l : List Iv) : Json := jArr (l.map fun x => jArr [toJson x.1, toJ
 def locOK (L : Int) (l : Loc) : Bool :=
   !l.parts.isEmpty && l.parts.all fun p => decide (0 ≤ p.lo) && decide (p.lo < p.hi) && decide (p.hi ≤ L)
 
+def pairsOfJson (j : Json) : R (List (String × String)) :=
+  listOf (fun kv => do return ((← asStr (← idx kv 0)), (← asStr (← idx kv 1)))) j
+def pairsToJson (l : List (String × String)) : Json := jArr (l.map fun kv => jArr [Json.str kv.1, Json.str kv.2])
+def commentsOfJson (j : Json) : R (Option (List (String × List (String × String)))) :=
+  match j with
+  | .null => pure none
+  | _ => do return some (← listOf (fun kv => do return ((← asStr (← idx kv 0)), (← pairsOfJson (← idx kv 1)))) j)
+def commentsToJson : Option (List (String × List (String × String))) → Json
+  | none => Json.null
+  | some m => jArr (m.map fun kv => jArr [Json.str kv.1, pairsToJson kv.2])
+
+/-- the annotation part: the model's region-file comment, the parent's comment afterwards, the spec's expectation -/
+def annotationsJson (rd : RegionData) (sc : Option (List (String × List (String × String)))) : Json :=
+  let t : AnnTree := ⟨[], sc⟩
+  let (h, parent) := heapOfTree t
+  match buildAnnotationsHeap h parent rd with
+  | none => jObj [("err", Json.str "annotations")]
+  | some (h', a) =>
+    jObj [("file", match readTop h' a with | some r => commentsToJson r.sc | none => Json.str "unreadable"),
+          ("parent_after", match readTop h' parent with | some r => commentsToJson r.sc | none => Json.str "unreadable"),
+          ("expected", commentsToJson (expectedAnn t rd).sc)]
+
 def handleRegion (circular : Bool) (L : Int) (rec : BioRecord) (j : Json) : R Json := do
   let rd ← regionDataOfJson (← fld j "data")
+  let sc ← commentsOfJson (fldD j "sc" Json.null)
   let m := writeToGenbank rd rec
   let modelJ := match m with
     | .error e => jObj [("err", Json.str e)]
@@ -106,7 +129,7 @@ def handleRegion (circular : Bool) (L : Int) (rec : BioRecord) (j : Json) : R Js
     | .ok v => listOf locOfJson v
     | .error _ => pure []
   let images := locs.map fun l => jObj [("inside", toJson (insideRegion L rd l)), ("canon", ivsToJson (imageCanon L rd l))]
-  return jObj [("model", modelJ), ("on_impl", onImpl),
+  return jObj [("model", modelJ), ("on_impl", onImpl), ("ann", annotationsJson rd sc),
                ("expected_seq", Json.str (String.ofList (expectedSeq L rd rec.seq))),
                ("region_len", toJson (regionLen L rd)),
                ("images", jArr images),
@@ -114,7 +137,8 @@ def handleRegion (circular : Bool) (L : Int) (rec : BioRecord) (j : Json) : R Js
                ("scope_wf", toJson (wfInput rd rec)),
                ("kf_prepeptide_cut", toJson (prepeptideCut L rd rec.features)),
                ("kf_equal_areas", toJson (equalAreas rd)),
-               ("kf_exons_span_file", toJson (exonsSpanFile circular L rd rec.features))]
+               ("kf_exons_span_file", toJson (exonsSpanFile circular L rd rec.features)),
+               ("kf_file_reconnects", toJson (fileReconnects circular L rd))]
 
 def handle (j : Json) : R Json := do
   let seq ← strF j "seq"
